@@ -22,7 +22,24 @@ def fr(msg, rng, in_response_to=0):
     return node.frame(h, msg)
 
 
-def base_traffic(rng, tree, keys, cr, nonce, replay=None):
+def spliced_signature_tx(tree, keys, genuine):
+    """a spend of ANOTHER unspent output of a key that signed the genuine transaction `genuine`, carrying the signature bytes cut
+    out of `genuine` (which the node has verified before): not a signature of this transaction — invalid"""
+    head = tree.cs.current_chain_hash
+    utxo = tree.cs.unspent_transaction_outs_by_hash[head]
+    used = {i.output_reference for i in genuine.inputs}
+    for i in genuine.inputs:
+        if i.output_reference not in utxo:
+            continue
+        pk = utxo[i.output_reference].public_key.public_key
+        for r2, o2 in tree.spendable(head):
+            if r2 not in used and o2.public_key.public_key == pk and o2.value > 0:
+                t2 = chain.make_tx(keys, utxo, [r2], [(o2.value, 0)])
+                return Transaction([Input(r2, i.signature)], t2.outputs)
+    return None
+
+
+def base_traffic(rng, tree, keys, cr, nonce, replay=None, genuine=None):
     """frames that are valid protocol traffic but have no legitimate effect on chain state, pool or store"""
     cs = tree.cs
     blocks = tree.blocks
@@ -81,6 +98,10 @@ def base_traffic(rng, tree, keys, cr, nonce, replay=None):
     head = cs.current_chain_hash
     utxo = cs.unspent_transaction_outs_by_hash[head]
     sp = tree.spendable(head)
+    if genuine is not None:
+        st = spliced_signature_tx(tree, keys, genuine)
+        if st is not None:
+            out.append(("data_tx_spliced_signature", fr(DataMessage(DATA_TRANSACTION, st), rng)))
     if sp:
         r, o = sp[0]
         bad = [chain.make_tx(keys, utxo, [r], [(o.value + 1, 0)]),
@@ -237,14 +258,20 @@ def run(ctx):
             greeted = rng.random() < 0.7
             outgoing = rng.random() < 0.3
             special = (k % 7 == 3)
-            if special:
+            if special or k % 7 == 5:
                 greeted = True
             c = rn.add_peer(active=greeted, outgoing=outgoing)
             ops.append("node peer %d %d" % (1 if greeted else 0, 1 if outgoing else 0))
             impl.append("ok")
-            frames = base_traffic(rng, tree, keys, cr, rn.lp.nonce, replay=good_hello)
+            frames = base_traffic(rng, tree, keys, cr, rn.lp.nonce, replay=good_hello, genuine=t0)
+            spliced_ = [f for f in frames if f[0] == "data_tx_spliced_signature"]
             rng.shuffle(frames)
             frames = frames[:rng.randrange(1, 7)]
+            force_spliced = (k % 7 == 5 and bool(spliced_))
+            if force_spliced:
+                # on a greeted connection, by itself and uncorrupted: a transaction carrying a signature cut out of the pending
+                # transaction of the well-behaved peer
+                frames = spliced_[:1]
             if not greeted and rng.random() < 0.5:
                 frames = [f for f in base_traffic(rng, tree, keys, cr, rn.lp.nonce) if f[0] == "hello"][:1] + frames
             elif not greeted and not any(f[0].startswith("hello") for f in frames):
@@ -259,7 +286,7 @@ def run(ctx):
                     extra = [("data_valid_tx_before_greeting", fr(DataMessage(DATA_TRANSACTION, t_), rng))]
                 frames = extra + frames
                 res.count("valid_data_before_greeting")
-            if rng.random() < 0.25:
+            if rng.random() < 0.25 or force_spliced:
                 kind, data = "uncorrupted", b"".join(f for _, f in frames)
             else:
                 kind, data = corrupt(rng, frames)
